@@ -9,6 +9,7 @@ import (
 	"encoding/json"
 	"errors"
 	"fmt"
+	"io"
 	"strings"
 	"time"
 
@@ -39,6 +40,7 @@ type c09case struct {
 	History []c09call `json:"history"`
 	Probe   c09call   `json:"probe"`
 	Caller  bool      `json:"caller_flag"`
+	ReentW  bool      `json:"reentrant_writer,omitempty"` // the probed logger's writer logs a side record before it reads its bytes
 	Choices []int     `json:"choices,omitempty"`
 }
 
@@ -50,8 +52,10 @@ type c09world struct {
 	loggers map[string]*slog.Entry
 }
 
-func c09new(caller bool) *c09world {
+func c09new(caller bool, reentw ...bool) *c09world {
 	resetGlobals()
+	reentFormats = []string{"logfmt"}
+	reentNoPoolChoice = true
 	fl := (slog.LstdFlags | slog.LnoInterrupt) &^ slog.Lcaller
 	if caller {
 		fl |= slog.Lcaller
@@ -60,7 +64,10 @@ func c09new(caller bool) *c09world {
 	_ = slog.RegisterLevel(c09Colored, "notice40", slog.RegWithColor(color.FgGreen, color.BgUnderline), slog.RegWithTreatedAsLevel(slog.InfoLevel))
 	w := &c09world{rec: &recorder{}, loggers: map[string]*slog.Entry{}}
 	mk := func(name string, l *slog.Entry) {
-		wr := &plainW{name, w.rec}
+		var wr io.Writer = &plainW{name, w.rec}
+		if len(reentw) > 0 && reentw[0] {
+			wr = &reentW{plainW{name, w.rec}}
+		}
 		l.SetWriter(wr).SetErrorWriter(wr).SetLevel(slog.AlwaysLevel)
 		w.loggers[name] = l
 	}
@@ -94,6 +101,9 @@ func (w *c09world) issue(k c09call) {
 	case "egroup":
 		// an empty group that sorts last, and one in the middle
 		l.WriteThru(bg, sev, fixedTime, 0, "with empty groups", slog.Attrs{slog.NewAttr("a", 1), slog.Group("m"), slog.NewAttr("n", 2), slog.Group("zone")})
+	case "reent":
+		// a value that logs a record with nested groups on a side logger while this record is being formatted
+		l.WriteThru(bg, sev, fixedTime, 0, "re-entrant\nvalue", slog.Attrs{slog.NewAttr("a", 1), slog.Group("alpha", "p", 1, slog.Group("inner", "v", reentV{"text"}, "w", 2), "q", 3), slog.NewAttr("z", "last")})
 	case "verb-small":
 		// few attributes (size-dependent recycling of the per-call attribute slice)
 		switch sev {
@@ -114,7 +124,7 @@ func c09calls(thorough bool) (hist, probes []c09call) {
 	sevs := []slog.Level{slog.InfoLevel, slog.ErrorLevel, slog.TraceLevel, c09Colored, c09Unknown}
 	for _, f := range []string{"color", "json", "logfmt"} {
 		for _, s := range sevs {
-			for _, sh := range []string{"plain", "attrs", "rich", "rich-eol", "egroup", "verb", "verb-small"} {
+			for _, sh := range []string{"plain", "attrs", "rich", "rich-eol", "egroup", "verb", "verb-small", "reent"} {
 				probes = append(probes, c09call{f, int(s), sh, "probed"})
 			}
 		}
@@ -122,7 +132,10 @@ func c09calls(thorough bool) (hist, probes []c09call) {
 	// history alphabet: a representative subset issued on the probed logger, a sibling and the default logger
 	for _, f := range []string{"color", "json", "logfmt"} {
 		for _, s := range []slog.Level{slog.ErrorLevel, c09Colored, slog.TraceLevel} {
-			for _, sh := range []string{"rich", "rich-eol", "egroup", "verb", "verb-small", "plain"} {
+			for _, sh := range []string{"rich", "rich-eol", "egroup", "verb", "verb-small", "plain", "reent"} {
+				if sh == "reent" && (s != slog.ErrorLevel || !thorough && f == "json") {
+					continue
+				}
 				if !thorough && (sh == "plain" || sh == "verb-small") && s != slog.TraceLevel && s != slog.ErrorLevel {
 					continue
 				}
@@ -142,7 +155,7 @@ func c09calls(thorough bool) (hist, probes []c09call) {
 func c09runSeq(cas c09case, prefix []int) (x *sched.Execution, payload string, nwrites int) {
 	var w *c09world
 	body := func() {
-		w = c09new(cas.Caller)
+		w = c09new(cas.Caller, cas.ReentW)
 		slog.VerifNowHook = func() time.Time { return fixedTime }
 		for _, h := range cas.History {
 			w.issue(h)
@@ -186,7 +199,7 @@ func c09violation(cas c09case, x *sched.Execution, got, want string) *Violation 
 			ch = append(ch, fmt.Sprintf("#%d %s alt %d/%d", i, p.Kind, p.Chosen, p.N))
 		}
 	}
-	sig := fmt.Sprintf("C09|bytes-depend-on-history|probe=%s|history=%s|caller=%v|choices=%s", cas.Probe, strings.Join(hs, ";"), cas.Caller, strings.Join(ch, ","))
+	sig := fmt.Sprintf("C09|bytes-depend-on-history|probe=%s|history=%s|caller=%v|reentw=%v|choices=%s", cas.Probe, strings.Join(hs, ";"), cas.Caller, cas.ReentW, strings.Join(ch, ","))
 	return mkViolation(sig, "bytes-depend-on-history",
 		fmt.Sprintf("probe %s after history [%s] (pool choices: %v) produced %.300q; after the empty history it is %.300q", cas.Probe, strings.Join(hs, "; "), ch, got, want), cc)
 }
@@ -229,7 +242,7 @@ func c09run(c *Ctx) {
 			return
 		}
 		for _, h := range hist {
-			if len(p) == 2 && h.Shape != "rich" && h.Shape != "verb" && h.Shape != "verb-small" && h.Shape != "egroup" && h.Shape != "rich-eol" {
+			if len(p) == 2 && h.Shape != "rich" && h.Shape != "reent" && h.Shape != "verb" && h.Shape != "verb-small" && h.Shape != "egroup" && h.Shape != "rich-eol" {
 				continue // third history element: the shapes that touch the most state
 			}
 			if !c.Thorough() && len(p) == 1 && (h.Shape == "plain" || (h.Shape == "rich" || h.Shape == "rich-eol" || h.Shape == "egroup") && h.Target != "probed" || slog.Level(h.Sev) == slog.TraceLevel) {
@@ -238,6 +251,7 @@ func c09run(c *Ctx) {
 			rec(append(p, h))
 		}
 	}
+	histories = append(histories, nil) // the empty history (with the re-entrant writer; without it, it is the baseline itself)
 	rec(nil)
 	c.Info("histories", len(histories))
 	n := 0
@@ -268,7 +282,7 @@ func c09run(c *Ctx) {
 				if c.Expired() {
 					return
 				}
-				cas := c09case{History: h, Probe: p, Caller: caller}
+				cas := c09case{History: h, Probe: p, Caller: caller, ReentW: (hi+pi/2)%2 == 1 || len(h) == 0}
 				want := c09base(p, caller)
 				// DFS over every environment choice (unbounded: few points per sequence)
 				var explore func(prefix []int) bool
